@@ -10,7 +10,9 @@ ASSUMPTIONS = [
     'C03_queue: the selection of the queue evaluation has green heads; C03_queue_closed discharges this for the '
     'selection computed by the model of QueueCollection._process on the state (Model/Select.lean) under '
     'Select.Validated = pull-request ids are positive and validate() passed; the admin force merge is the stated '
-    'exception',
+    'exception. Over the closed system (Props/Full.lean) C03_full_step / C03_full_run need neither: every event of '
+    'every history, queue merge and direct merge alike, exceptions = C03Exempt (force merge, create_branch, bypassed '
+    'build check); hypothesis hT = the generated build-gate table is well-formed (C06_table)',
     'build statuses are keyed by commit on the git host (mock host: Repository.revisions)',
 ]
 TRUSTED = [
